@@ -37,7 +37,7 @@ EXTRA_MODULES = {
     "C05": ["Dreye.Props.ExtrasA"],
     "C06": ["Dreye.Props.Linalg", "Dreye.Props.C06Pivot", "Dreye.Props.C06Bridge", "Dreye.Props.C06Exact", "Dreye.Props.ExtrasB"],
     "C08": ["Dreye.Props.Cert"], "C09": ["Dreye.Props.Cert"], "C10": ["Dreye.Props.Cert"],
-    "C16": ["Dreye.Props.C16Bary", "Dreye.Props.Linalg"],
+    "C16": ["Dreye.Props.C16Bary", "Dreye.Props.Linalg", "Dreye.Props.C16Round"],
     "C19": ["Dreye.Props.ExtrasB"],
 }
 # namespaces (besides Dreye.<prop>) whose theorems count as obligations of a property
